@@ -10,6 +10,7 @@ package server
 //   C15:refused-changed-value        a request answered with a refusal (anything but SUCCED, LOCKED_ERROR to an update, or
 //                                    LOCKED_ERROR to a cancel) changed the value
 //   C17:keycount                     KeyCount ≠ number of the sequence's keys whose record is reachable through GetLockManager
+//   C17:value-on-new-key             a key without a record gets a value from an operation that carries no frame (recycled key record)
 //   C17:keycount-after-drain / C17:value-after-drain / C17:refcount-after-drain
 //                                    after the adaptive drain + 18 s a key record / a value / a lock record is still reachable
 //   C10:follower-ended-replicated-hold  a non-leader ended a journalled (isAof) hold less than 300 s past its deadline
@@ -139,6 +140,11 @@ func (m *vE2Monitor) after(o vE2Op, ob string) {
 	}
 	pre, post := m.pre[o.key], x.keySnap(o.key)
 	res := own.result
+	// ---- C17 / C15: a key whose record did not exist before this operation starts life without a value: whatever its first
+	// reply carries or its cell holds must come from this operation's own frame (a recycled key record must not bring a value along)
+	if !pre.exists && len(o.frame) == 0 && (len(own.data) != 0 || (post.exists && len(post.data) != 0)) {
+		m.report("C17:value-on-new-key", fmt.Sprintf("key %d had no record before %s, which carries no value frame, yet its reply carries %s and its cell holds %s", o.key, o.String(), e2HexOrDash(own.data), e2HexOrDash(post.data)))
+	}
 	accepted := res == 0 || (res == protocol_RESULT_LOCKED_ERROR && o.kind == 'L' && o.flag&2 != 0) || (res == protocol_RESULT_LOCKED_ERROR && o.kind == 'U' && o.flag&2 != 0)
 	// ---- C15: a refused request leaves the value unchanged
 	if !accepted && e2HexOrDash(pre.data) != e2HexOrDash(post.data) {
